@@ -117,7 +117,8 @@ class C12(Prop):
         for j, (i, seam, k) in enumerate(points):
             c = copy.deepcopy(base)
             c["faults"] = [{"op": i, "seam": seam, "at": k, "kind": "kbdint" if (j + seed) % 3 == 0 else "raise"}]
-            c["op_budgets"] = {str(q): live for q in range(i + 1, len(c["ops"])) if c["ops"][q]["op"] == "integrate"}
+            if not any("plan" in (o.get("callbacks") or []) for o in c["ops"]):      # a dt assigned by a callback is the user's own step
+                c["op_budgets"] = {str(q): live for q in range(i + 1, len(c["ops"])) if c["ops"][q]["op"] == "integrate"}
             out.append(c)
         # "or tolerances cannot be met": persistent rhs spikes with a small retry cap exhaust the retry loop of one step
         if gen.is_adaptive(base["system"]["method"]) and not base["system"]["method"].startswith("Rich:") and points:
